@@ -332,3 +332,108 @@ _t04c = tasks
 def tasks(tier):
     shapes = [(1, 2), (2, 2), (3, 1)] if tier == 'quick' else [(1, 3), (2, 2), (3, 1), (4, 1)]
     return _t04c(tier) + [(f'reconcile{K}x{m}', mk_reconcile(K, m)) for K, m in shapes]
+
+
+# ---------------------------------------------------------------- C04.i: how the risk engine pairs positions with the bank / oracle accounts it is given (BankAccountWithPriceFeed::load), decided compositionally:
+# the per-position closure, the filter closure, and the iterator wiring of `load` itself.  (The iterator chain filter -> map -> collect is trusted std code.)
+def t_load_pairing(world, prefix='C04.i'):
+    from specs.handlers import short
+    obs = []
+    eng = world.engine(opaque=[r'anchor_lang::', r'get_remaining_accounts_per_bank$', r'try_from_bank', r'AccountLoader', r'Box::'], merge=False, max_paths=5000)
+    f = world.fn(r'marginfi_account\.rs:\d+[^>]*>::load::\{closure#1\}$', pred=lambda f_: 'BankAccountWithPriceFeed' in f_.ret)
+    ais = eng.ex.fresh("&[anchor_lang::prelude::AccountInfo<'_>]", 'ais'); idxc = Cell(eng.ex.fresh('usize', 'idx'), name='idx'); clock = eng.ex.fresh('&anchor_lang::prelude::Clock', 'clock')
+    env = StructV('closure', 'env', {0: ais, 1: RefV(idxc), 2: clock}, lazy=False)
+    bal = eng.ex.fresh('&Balance', 'bal')
+    res = eng.run_fn(f, [RefV(Cell(env)), bal])
+    ob = Ob(prefix + '.position', 'BankAccountWithPriceFeed::load, per active position: the bank account is remaining_accounts[account_index]; it is accepted only if its key equals the position\'s bank_pk (no substituted bank); '
+            'the oracle accounts are exactly remaining_accounts[account_index+1 .. account_index+n) with n = get_remaining_accounts_per_bank(that bank) and the list is long enough; the price adapter is built from that bank, '
+            'that slice and the caller\'s clock; account_index advances by n; the entry returned carries THIS position, that bank and that adapter',
+            [f.name], 'closure executed from its MIR with a symbolic environment (any account list, any index); Anchor loaders opaque; every accepting path'); ob.paths = len(res)
+    idx0 = z3.Int('idx')
+    for r, okc in ok_paths(res):
+        if ob.witness(eng, r, [okc]) is False: continue
+        Ev = [e for e in flat_events(r['events']) if e[0] == 'call']
+        def one(pat, what):
+            c = [e for e in Ev if re.search(pat, e[1])]
+            if len(c) != 1: ob.structural(f'{len(c)} calls of {what} on an accepting path', 'pairing:' + what, {'trace': [short(e[1]) for e in Ev]}); return None
+            return c[0]
+        g = one(r'core::slice::<impl \[.*\]>::get::<usize>$|::get::<usize>$', 'remaining_accounts.get'); tf = one(r'AccountLoader.*::try_from$', 'AccountLoader::try_from')
+        ld = one(r'AccountLoader.*::load$', 'load'); n_ = one(r'get_remaining_accounts_per_bank$', 'get_remaining_accounts_per_bank')
+        sl = one(r'as Index<.*Range<usize>>>::index$|::index$', 'oracle slice'); tb = one(r'try_from_bank$', 'try_from_bank')
+        if None in (g, tf, ld, n_, sl, tb): continue
+        ob.prove(eng, r, [okc], z3.And(g[2][1].e == idx0, zint(g[3].disc) == 1), 'the bank account is remaining_accounts[account_index] and must exist', role='pairing:bank-index')
+        bank_ai = eng.deref_val(g[3].payload[1][0])
+        ob.queries += 1
+        nm = lambda v: getattr(eng.deref_val(v), 'name', None)        # forks clone objects: identity is the (unique) symbolic name
+        if nm(tf[2][0]) == bank_ai.name: ob.unsat += 1
+        else: ob.sat += 1; ob.cex.append({'ob': ob.oid, 'label': 'the Bank loader is built from another account than remaining_accounts[account_index]', 'role': 'pairing:bank-loader', 'model': {}, 'replay': None}); continue
+        key = z3.Int(f'{bank_ai.name}.0*')
+        ob.prove(eng, r, [okc], fsym('bal*', 'Balance', 'bank_pk') == key, 'accepted only if the account\'s key == the position\'s bank_pk (a substituted bank is rejected)', role='pairing:bank-key')
+        n = n_[3].payload[0][0].e
+        ob.prove(eng, r, [okc], z3.And(zint(tf[3].disc) == 0, zint(n_[3].disc) == 0), 'loader / account-count errors propagated', role='pairing:errors')
+        rg = eng.deref_val(sl[2][1])
+        st_, en_ = rg.fields.get('start', rg.fields.get(0)), rg.fields.get('end', rg.fields.get(1))
+        ob.prove(eng, r, [okc], z3.And(st_.e == idx0 + 1, en_.e == idx0 + n, z3.Int('ais*.len') >= idx0 + n), 'oracle accounts == remaining_accounts[account_index+1 .. account_index+n), and the list is long enough', role='pairing:oracle-slice')
+        ob.queries += 1
+        same_list = nm(sl[2][0]) == nm(g[2][0]) == 'ais*'
+        slice_to_adapter = nm(tb[2][1]) is not None and nm(tb[2][1]) == nm(sl[3])
+        clock_ok = nm(tb[2][2]) == 'clock*'
+        if same_list and slice_to_adapter and clock_ok: ob.unsat += 1
+        else: ob.sat += 1; ob.cex.append({'ob': ob.oid, 'label': f'adapter wiring: same account list {same_list}, slice passed to the adapter {slice_to_adapter}, caller\'s clock {clock_ok}', 'role': 'pairing:adapter-wiring', 'model': {}, 'replay': None})
+        envf = eng.deref_val(r['roots'][0])
+        idx1 = ev(eng.deref_val(envf.fields[1]))
+        ob.prove(eng, r, [okc], idx1 == idx0 + n, 'account_index advances by n', role='pairing:advance')
+        out = r['ret'].payload[0][0]
+        balf = out.fields.get('balance', out.fields.get(2))
+        ob.queries += 1
+        if isinstance(balf, RefV) and nm(balf) == 'bal*': ob.unsat += 1
+        else: ob.sat += 1; ob.cex.append({'ob': ob.oid, 'label': 'the entry does not carry the position it was built for', 'role': 'pairing:entry-balance', 'model': {}, 'replay': None})
+    ob.need_witness(); obs.append(ob)
+    # the filter closure: active positions only
+    eng2 = world.engine()
+    f0 = world.fn(r'marginfi_account\.rs:\d+[^>]*>::load::\{closure#0\}$', pred=lambda f_: f_.ret.strip() == 'bool')
+    b2 = eng2.ex.fresh('&Balance', 'bal')
+    res0 = eng2.run_fn(f0, [RefV(Cell(StructV('closure', 'env0', {}, lazy=False))), RefV(Cell(b2))])
+    ob0 = Ob(prefix + '.filter', 'BankAccountWithPriceFeed::load considers exactly the ACTIVE slots (filter closure == balance.active != 0)', [f0.name], 'loop-free'); ob0.paths = len(res0)
+    for r in returned(res0):
+        if ob0.witness(eng2, r, []) is False: continue
+        ob0.prove(eng2, r, [], r['ret'].e == (fsym('bal*', 'Balance', 'active') != 0), 'filter(balance) <=> balance is active', role='pairing:filter')
+    ob0.need_witness(); obs.append(ob0)
+    # the wiring of load itself: balances.iter().filter(#0).map(#1 with (remaining_ais, &mut 0, &clock)).collect(), returned as is
+    eng3 = world.engine(opaque=[r'as Iterator>::(filter|map|collect)', r'::iter$', r'anchor_lang::'], merge=False, max_paths=2000)
+    fl = world.fn(r'marginfi_account\.rs:\d+[^>]*>::load$', pred=lambda f_: 'BankAccountWithPriceFeed' in f_.ret)
+    la = eng3.ex.fresh(fl.params[0][1], 'la'); ra = eng3.ex.fresh(fl.params[1][1], 'ais')
+    res3 = eng3.run_fn(fl, [la, ra])
+    ob3 = Ob(prefix + '.wiring', 'BankAccountWithPriceFeed::load == lending_account.balances.iter().filter(active).map(per-position closure over (remaining accounts, index starting at 0, clock)).collect(), its result returned unchanged',
+             [fl.name], 'iterator adaptors opaque (trusted std); every returning path'); ob3.paths = len(res3)
+    for r in returned(res3):
+        if isinstance(r['ret'], EnumV) and not z3.is_false(z3.simplify(disc_is(r['ret'], 0))):
+            okc = z3.simplify(disc_is(r['ret'], 0))
+        else: continue
+        Ev = [e for e in flat_events(r['events']) if e[0] == 'call']
+        if ob3.witness(eng3, r, [okc]) is False: continue
+        me = [e for e in Ev if '::map::<' in e[1]]; ce = [e for e in Ev if '::collect::<' in e[1]]
+        if len(me) != 1 or len(ce) != 1: ob3.structural(f'{len(me)} map / {len(ce)} collect calls', 'pairing:chain'); continue
+        me, ce = me[0], ce[0]
+        flt = eng3.deref_val(me[2][0])
+        ob3.queries += 1
+        bi = STRUCTS['LendingAccount'].index('balances')
+        it = flt.fields.get('__iter') if isinstance(flt, StructV) and flt.ty == 'Filter' else None
+        src = it.fields.get('__list') if isinstance(it, StructV) else None
+        whole = isinstance(src, RefV) and getattr(eng3.deref_val(RefV(src.cell, src.path[:-1])), 'name', None) == 'la*' and src.path[-1][0] == 'f' and src.path[-1][1] == bi and it.fields.get('__idx') == 0
+        pred_ok = isinstance(flt, StructV) and str(flt.fields.get('__pred', '')).endswith('load::{closure#0}')
+        map_ok = 'load::{closure#1}' in (eng3.closure_fn(me[1]).name if eng3.closure_fn(me[1]) is not None else '') or me[1].count('closure@') >= 2
+        menv = eng3.deref_val(me[2][1]) if len(me[2]) > 1 else None
+        f1v = eng3.deref_val(menv.fields.get(1)) if isinstance(menv, StructV) and menv.fields.get(1) is not None else None
+        env_ok = isinstance(menv, StructV) and getattr(eng3.deref_val(menv.fields.get(0)), 'name', None) == 'ais*' and isinstance(f1v, IntV) and z3.is_int_value(z3.simplify(f1v.e)) and z3.simplify(f1v.e).as_long() == 0
+        coll_in = getattr(eng3.deref_val(ce[2][0]), 'name', 'x') == getattr(me[3], 'name', 'y') if not isinstance(me[3], (RefV,)) else False
+        ret_ok = isinstance(ce[3], EnumV) and isinstance(r['ret'], EnumV) and str(r['ret'].disc) == str(ce[3].disc)
+        if whole and pred_ok and map_ok and env_ok and ret_ok: ob3.unsat += 1
+        else: ob3.sat += 1; ob3.cex.append({'ob': ob3.oid, 'label': f'load wiring: iterates the whole balances array from slot 0: {whole}; filter closure is the activity test: {pred_ok}; map closure is the per-position closure: {map_ok}; its environment = (remaining accounts, index 0, clock): {env_ok}; collect result returned: {ret_ok}', 'role': 'pairing:wiring', 'model': {}, 'replay': None})
+    ob3.need_witness(); obs.append(ob3)
+    return obs
+
+
+_t_lp = tasks
+def tasks(tier):
+    return _t_lp(tier) + [('load_pairing', t_load_pairing)]
